@@ -123,9 +123,9 @@ fn first_in(v: &SlateV4) -> Option<usize> {
 	v.coms.as_ref()?.iter().position(|c| c.p.is_none())
 }
 
-/// a well-formed partial signature made by the adversary's own keys over the sums
-/// and the message the slate currently shows
-fn adv_part_sig(v: &SlateV4, env: &Env) -> Result<Signature, String> {
+/// a well-formed partial signature made with the secret keys (sk, sn) over the sums of
+/// every entry the slate shows plus the finalizer's own entry, and the agreed message
+fn adv_part_sig(v: &SlateV4, env: &Env, sk: &SecretKey, sn: &SecretKey) -> Result<Signature, String> {
 	let s = secp_inst();
 	let mut nonces: Vec<&PublicKey> = v.sigs.iter().map(|p| &p.nonce).collect();
 	let mut xs: Vec<&PublicKey> = v.sigs.iter().map(|p| &p.xs).collect();
@@ -142,8 +142,7 @@ fn adv_part_sig(v: &SlateV4, env: &Env) -> Result<Signature, String> {
 	let msg = core::core::KernelFeatures::Plain { fee }
 		.kernel_sig_msg()
 		.map_err(|e| format!("{:?}", e))?;
-	aggsig::calculate_partial_sig(&s, &fresh_sk(&s), &fresh_sk(&s), &nsum, Some(&xsum), &msg)
-		.map_err(|e| format!("{:?}", e))
+	aggsig::calculate_partial_sig(&s, sk, sn, &nsum, Some(&xsum), &msg).map_err(|e| format!("{:?}", e))
 }
 
 /// Apply `class` to the wire slate.  Err = the class cannot be realised on this
@@ -219,7 +218,8 @@ pub fn apply(class: &str, v: &mut SlateV4, env: &Env) -> Result<(), String> {
 		}
 		"part_none" => v.sigs.get_mut(0).ok_or("no entry")?.part = None,
 		"part_fresh" => {
-			let sig = adv_part_sig(v, env)?;
+			// made with keys that are not the entry's
+			let sig = adv_part_sig(v, env, &fresh_sk(&s), &fresh_sk(&s))?;
 			v.sigs.get_mut(0).ok_or("no entry")?.part = Some(sig);
 		}
 		"part_stale" => v.sigs.get_mut(0).ok_or("no entry")?.part = Some(env.stale_sig.ok_or("no stale signature")?),
@@ -239,12 +239,16 @@ pub fn apply(class: &str, v: &mut SlateV4, env: &Env) -> Result<(), String> {
 			part: None,
 		}),
 		"entry_add_signed" => {
-			let sig = adv_part_sig(v, env)?;
+			// a third participant whose own partial signature is VALID for the sums that now
+			// include it (the counterparty's signature no longer is)
+			let (sk, sn) = (fresh_sk(&s), fresh_sk(&s));
 			v.sigs.push(ParticipantDataV4 {
-				xs: fresh_pk(&s),
-				nonce: fresh_pk(&s),
-				part: Some(sig),
-			})
+				xs: PublicKey::from_secret_key(&s, &sk).unwrap(),
+				nonce: PublicKey::from_secret_key(&s, &sn).unwrap(),
+				part: None,
+			});
+			let sig = adv_part_sig(v, env, &sk, &sn)?;
+			v.sigs.last_mut().unwrap().part = Some(sig);
 		}
 		// ---- commitments
 		"out_add_adj" => {
